@@ -895,6 +895,14 @@ pub fn merge_tool_cases(quick: bool) -> Vec<MergeTool> {
     let mut v = vec![];
     let outs: Vec<(&str, Option<&str>)> = vec![("out.bw", None), ("out.bigWig", None), ("out.bedGraph", None), ("out.dat", Some("bigwig")), ("out.dat", Some("BedGraph")), ("OUT.BW", None), ("out.bw", Some("bedgraph")), ("out.bedGraph", Some("bigwig")), (".bw", None), ("sub/.bedGraph", None), (".bigWig", None), ("out.v2.bw", None), ("out.bw.bedGraph", None)];
     let mut n = 0;
+    // inputs given partly by -b and partly by a list
+    for inputs in [vec![0usize, 1], vec![0, 1, 2], vec![1, 2]] {
+        for input_style in [5u8, 6] {
+            for o in ["out.bw", "out.bedGraph"] {
+                v.push(MergeTool { inputs: inputs.clone(), clip: None, adjust: None, threshold: None, output: s(o), output_type: None, ucsc: false, input_style, many: 0 });
+            }
+        }
+    }
     for inputs in [vec![0usize], vec![0, 1], vec![0, 1, 2], vec![1, 2]] {
         for clip in [None, Some(1.5f32)] {
             for adjust in [None, Some(-1.0f32), Some(0.5)] {
@@ -1053,10 +1061,24 @@ pub fn c15_tool(t: &MergeTool, out: &mut Outcome) {
         std::fs::write(dir.join(format!("in{}.bw", k)), encode(&spec).bytes).unwrap();
         match t.input_style {
             0 => argv.extend([s("-b"), format!("in{}.bw", k)]),
+            // styles 5, 6: inputs named by -b and by a list in one call (5: the first by -b, in
+            // front of the list; 6: the last by -b, behind the list)
+            5 if k == 0 => argv.extend([s("-b"), format!("in{}.bw", k)]),
+            6 if k + 1 == contents.len() => {}
             // the attached spelling of the same option
             4 => argv.push(format!("-bin{}.bw", k)),
             2 => argv.push(format!("in{}.bw", k)),
             _ => {}
+        }
+    }
+    if t.input_style == 5 || t.input_style == 6 {
+        let n = contents.len();
+        let listed: Vec<usize> = if t.input_style == 5 { (1..n).collect() } else { (0..n - 1).collect() };
+        let list: String = listed.iter().map(|k| format!("in{}.bw\n", k)).collect();
+        std::fs::write(dir.join("inputs.txt"), list).unwrap();
+        argv.extend([s("-l"), s("inputs.txt")]);
+        if t.input_style == 6 {
+            argv.extend([s("-b"), format!("in{}.bw", n - 1)]);
         }
     }
     if t.input_style == 1 || t.input_style == 3 {
